@@ -50,6 +50,29 @@ func TestVerifC07(t *testing.T) {
 			t.Fatal(err)
 		}
 		res := map[string]any{"i": i}
+		var hd struct {
+			K string `json:"k"`
+		}
+		_ = json.Unmarshal(raw, &hd)
+		if hd.K == "stress" || hd.K == "birth" {
+			// real goroutines, real clock, no bubble (c07_stress_test.go)
+			var sc c07sCase
+			if err := json.Unmarshal(raw, &sc); err != nil {
+				t.Fatal(err)
+			}
+			p, msg := vCatch(func() {
+				if hd.K == "birth" {
+					c07BirthProbe(res)
+				} else {
+					c07sRun(sc, res)
+				}
+			})
+			if p {
+				res["ok"], res["why"], res["panic"] = false, "panic: "+msg, true
+			}
+			out.Emit(res)
+			continue
+		}
 		if hangs >= 2 {
 			// every hung history costs c07HangLimit of real time; two concrete ones are reported, the rest is not run
 			res["skipped"] = true
